@@ -187,7 +187,11 @@ def step (cs : CaseSt) (op obs : String) : CaseSt × R :=
       | "enq" =>
         let p := ((getF fs "prio").bind (·.toInt?)).getD 1
         let adj := getF fs "adj" == some "1"
-        (fun s => step? s (.enqueue p ((getNat fs "name").getD 0) adj), fun _ => true,
+        -- `av=`: the adjust function returns that value from the start (= the environment's `setAdj` right after the call)
+        let av := (getF fs "av").bind (·.toInt?)
+        (fun s => match step? s (.enqueue p ((getNat fs "name").getD 0) adj), av with
+                  | some s', some v => step? s' (.setAdj s.nextId v)
+                  | r, _ => r, fun _ => true,
          fun _ => { cs.m with enq := cs.m.enq ++ [(before.nextId, p, adj, cs.m.subs)] })
       | "rel" =>
         let pick := (getNat fs "pick").getD 0
@@ -306,5 +310,105 @@ partial def loop (h : IO.FS.Stream) (st : Stats) (cs : CaseSt) (caseNo : String)
 def main : IO Unit := do
   let st ← loop (← IO.getStdin) {} {} "?" 0
   st.print
+
+
+/-! ### self-test: the model as implementation
+
+`tvdriver wqsim <seed>` reads a *script* (the operations the harness would apply to the real queue) and
+answers every operation from the model itself, resolving each choice the model leaves open (which enabled
+internal step runs next, in particular which blocked producer is admitted) pseudo-randomly.  The trace it
+prints has the format of the harness's; fed to `tvdriver wq` it must produce no DIFF and no MONFAIL: every
+behaviour the model allows — a superset of what the Go scheduler shows on one machine — has to pass the
+monitors and the candidate search.  This tests the *machinery* for false alarms; it says nothing about the code. -/
+
+def lcg (x : Nat) : Nat := (x * 6364136223846793005 + 1442695040888963407) % 18446744073709551616
+
+/-- run internal steps, choosing pseudo-randomly, until none is enabled. -/
+def settleRandom : Nat → Nat → St → Nat × St
+  | 0, rng, s => (rng, s)
+  | fuel + 1, rng, s =>
+    let acts := internalActs s
+    if acts.isEmpty then (rng, s) else
+    let rng := lcg rng
+    match acts[(rng / 65536) % acts.length]? >>= step? s with
+    | some s' => settleRandom fuel rng s'
+    | none => (rng, s)
+
+structure SimSt where
+  s : St := init 1 1
+  rng : Nat := 1
+  lastDisp : String := "select"
+  lastProd : Nat := 0
+
+def simStep (st : SimSt) (op : String) : SimSt × String :=
+  let toks := words op
+  let fs := fieldsOf toks
+  let kind := toks.headD "?"
+  let s := st.s
+  let fin (s' : St) (pre : String) : SimSt × String :=
+    let (rng, q) := settleRandom 100000 st.rng s'
+    let o := obsOf q
+    ({ s := q, rng := rng, lastDisp := o.disp, lastProd := o.prod }, pre ++ showObs o)
+  let orSame (x : Option St) : St := x.getD s
+  match kind with
+  | "new" => fin (init ((getNat fs "W").getD 1) ((getNat fs "L").getD 1)) ""
+  | "enq" =>
+    let p := ((getF fs "prio").bind (·.toInt?)).getD 1
+    let adj := getF fs "adj" == some "1"
+    let av := (getF fs "av").bind (·.toInt?)
+    let s1 := orSame (step? s (.enqueue p ((getNat fs "name").getD 0) adj))
+    let s2 := match av with | some v => orSame' s1 (step? s1 (.setAdj s.nextId v)) | none => s1
+    fin s2 ""
+  | "rel" =>
+    let pick := (getNat fs "pick").getD 0
+    let err := getF fs "err" == some "1"
+    if s.running.isEmpty then fin s "id=none " else
+    match s.running[pick % s.running.length]? with
+    | some it => fin (orSame (step? s (.finish it.id err))) s!"id={it.id} "
+    | none => fin s "id=none "
+  | "setadj" =>
+    let id := (getNat fs "id").getD 0
+    let v := ((getF fs "v").bind (·.toInt?)).getD 0
+    -- the harness changes the value only of an item that was enqueued with an adjust function
+    if id < s.nextId && ((stored s ++ s.running ++ s.blocked ++ s.limbo).any (fun it => it.id == id && it.adj) || (s.adjVals.any (·.1 == id)))
+    then fin (orSame (step? s (.setAdj id v))) "" else fin s ""
+  | "sub" => fin (orSame (step? s .subscribe)) ""
+  | "recverr" =>
+    let sub := (getNat fs "sub").getD 0
+    match s.mon with
+    | .fanout e (x :: _) => if x == sub then fin (orSame (step? s (.subRecv sub))) s!"got={e} " else fin s "got=none "
+    | _ => fin s "got=none "
+  | "resize" => fin (orSame (step? s (.resizeLen ((getNat fs "L").getD 1)))) ""
+  | "deq" =>
+    if st.lastDisp != "select" || st.lastProd != 0 then fin s "ret=skipped " else
+    let id := (getNat fs "id").getD 0
+    if dequeueRet s id == .nil then fin (orSame (step? s (.dequeue id))) "ret=nil " else fin s "ret=error "
+  | "setprio" =>
+    if st.lastDisp != "select" || st.lastProd != 0 then fin s "ret=skipped " else
+    let id := (getNat fs "id").getD 0
+    let p := ((getF fs "p").bind (·.toInt?)).getD 0
+    if setPrioRet s id == .nil then
+      (if (findId (stored s) id).isSome then fin (orSame (step? s (.setPrio id p))) "ret=nil " else fin s "ret=nil ")
+    else fin s "ret=error "
+  | "stop" => fin (orSame (step? s .stop)) ""
+  | "brk" => fin (orSame (step? s .break_)) ""
+  | _ => fin s ""
+where orSame' (d : St) (x : Option St) : St := x.getD d
+
+partial def simLoop (h : IO.FS.Stream) (st : SimSt) : IO Unit := do
+  let line ← h.getLine
+  if line.isEmpty then return ()
+  let line := (line.dropEndWhile (· == '\n')).toString
+  if line.startsWith "case " then
+    IO.println line
+    simLoop h { st with s := init 1 1, lastDisp := "select", lastProd := 0 }
+  else if line.isEmpty then simLoop h st
+  else
+    let (st', obs) := simStep st line
+    IO.println s!"{line} => {obs}"
+    simLoop h st'
+
+def simMain (seed : Nat) : IO Unit := do
+  simLoop (← IO.getStdin) { rng := lcg (seed + 12345) }
 
 end Driver.WQ
